@@ -85,7 +85,8 @@ func (n *namespace) isTaken(name string) bool {
 	if n.parent != nil {
 		return n.parent.isTaken(name)
 	}
-	return goast.IsReservedKeyword(name)
+	// A package cannot be imported as "init".
+	return goast.IsReservedKeyword(name) || name == "init"
 }
 
 func (n *namespace) NewName(base string) string {
